@@ -867,6 +867,15 @@ impl<'a> Parser<'a> {
     }
 
     fn break_statement(&mut self) {
+        let scope_depth = match self.compiler().current_loop_header() {
+            Some((_, depth)) => depth,
+            None => {
+                self.compiler_error(CompilerError::InvalidControlStatement);
+                return;
+            }
+        };
+        // Discard the locals of the loop body before leaving it.
+        self.emit_scope_end(false, scope_depth);
         let break_pos = self.emit_jump(OpCode::Jump);
         match self.compiler_mut().push_break(break_pos) {
             Ok(_) => {}
@@ -875,12 +884,6 @@ impl<'a> Parser<'a> {
                 return;
             }
         }
-        let scope_depth = self
-            .compiler()
-            .current_loop_header()
-            .expect("Expected tuple.")
-            .1;
-        self.emit_scope_end(false, scope_depth);
         self.consume(TokenKind::SemiColon, "Expected ';' after 'break'.");
     }
 
